@@ -5,6 +5,7 @@ import (
 	"fmt"
 	"strings"
 	"testing"
+	"time"
 
 	"github.com/alibaba/RedisShake/pkg/libs/log"
 	"github.com/alibaba/RedisShake/verifrt/ev"
@@ -68,8 +69,25 @@ func c03Judge(c c03Case, res *syncResult) (string, string) {
 			return "wrong-db", fmt.Sprintf("command %q ran in db %d; %s", w.String(), g.DB, show())
 		}
 	}
+	// bounded time: the sender flushes at least every 500 ms, so at every quiescent point the
+	// target must have applied every forwarded command whose source bytes were completely
+	// delivered 500 ms (of the bubble's clock) or more before
+	for j, w := range want {
+		if w.Idx >= len(res.DeliveredAt) {
+			continue
+		}
+		d := res.DeliveredAt[w.Idx]
+		for _, p := range res.Timeline {
+			if p.At >= d+c03FlushBound && p.Applied <= j {
+				return "late", fmt.Sprintf("command %q was delivered by the source at %v but at %v the target had applied only %d forwarded commands; %s", w.String(), d, p.At, p.Applied, show())
+			}
+		}
+	}
 	return "", ""
 }
+
+// the sender's flush period (500 ms) plus nothing: inside the bubble processing takes no time
+const c03FlushBound = 500 * time.Millisecond
 
 func c03Configs(level int) []syncConfig {
 	var out []syncConfig
@@ -90,7 +108,7 @@ func c03Configs(level int) []syncConfig {
 									if level == 0 && !(lua == (kf == 1) && (ss == 1) == (sc == 2)) {
 										continue
 									}
-									out = append(out, syncConfig{DBFilter: dbf, KeyFilter: kf, Lua: lua, TargetDB: tdb, Resume: resume, SenderCount: sc, SenderSize: ss, StartDb: sdb, StartOffset: 1000})
+									out = append(out, syncConfig{DBFilter: dbf, KeyFilter: kf, Lua: lua, TargetDB: tdb, Resume: resume, SenderCount: sc, SenderSize: ss, StartDb: sdb, StartOffset: 1000, Pauses: true})
 								}
 							}
 						}
